@@ -27,7 +27,6 @@ fn table_body<const L: usize>() {
     let t = as_rust_type(s, &doc);
     let ok = match expected(&b) {
         Some(e) => {
-            kani::cover!(true, "a builtin name of this length exists");
             t == e
         }
         None => match &t {
@@ -37,6 +36,8 @@ fn table_body<const L: usize>() {
             _ => false,
         },
     };
+    kani::cover!(expected(&b).is_some() || !HAS_BUILTIN_OF_LEN[L], "a builtin name of this length exists");
+    kani::cover!(expected(&b).is_none(), "a non-builtin name of this length exists");
     std::mem::forget(t);
     std::mem::forget(doc);
     assert!(ok, "C02 builtin table: mapped names give their carrier, every other name a user type");
